@@ -97,6 +97,7 @@ fn main() {
         Some("trace") => trace_main(&args),
         Some("c11d") => drive::<simlib::io::C11DecodeEngine>(&args),
         Some("c20") => drive::<simlib::conc::C20Engine>(&args),
+        Some("c20s") => drive::<simlib::conc::C20StormEngine>(&args),
         #[cfg(rosu_pp_verif)]
         Some("c11s") => drive::<simlib::strainsvec::StrainsVecEngine>(&args),
         Some("c02") => drive::<C02Engine>(&args),
